@@ -17,6 +17,10 @@ import (
 // and never asks for possibleTypes has no reason to set it).
 type BuildOpts struct {
 	NoInterfaceRoot bool
+	// Skip: types left out; Only (non-nil): nothing but these types, no directive definitions - the
+	// two halves of a schema that is put together in two AddTypes calls.
+	Skip map[string]bool
+	Only map[string]bool
 }
 
 func BuildAPI(root *ggql.Root, s *Schema, o BuildOpts) (err error, usable bool) {
@@ -70,6 +74,9 @@ func BuildAPI(root *ggql.Root, s *Schema, o BuildOpts) (err error, usable bool) 
 	}
 	var types []ggql.Type
 	for _, d := range s.Dirs {
+		if o.Only != nil {
+			break
+		}
 		dd := &ggql.Directive{Base: ggql.Base{N: d.Name, Desc: d.Desc}}
 		for _, on := range d.On {
 			dd.On = append(dd.On, ggql.Location(on))
@@ -82,6 +89,9 @@ func BuildAPI(root *ggql.Root, s *Schema, o BuildOpts) (err error, usable bool) 
 		types = append(types, dd)
 	}
 	for _, td := range s.Types {
+		if o.Skip[td.Name] || (o.Only != nil && !o.Only[td.Name]) {
+			continue
+		}
 		base := ggql.Base{N: td.Name, Desc: td.Desc, Dirs: dirs(td.Dirs)}
 		switch td.Kind {
 		case KScalar:
